@@ -42,6 +42,10 @@ func gen(g *kernel.Rng, seed uint64, tier string) *kernel.Plan {
 	p.Cfg["post"] = int64(g.Pick(1, 6))
 	p.Cfg["hs"] = int64(g.Pick(7, 3))
 	n := g.Range(1, 12)
+	long := g.Bool(0.03)
+	if long {
+		n = g.Range(130, 300) // a long-lived connection: hundreds of requests
+	}
 	tid := int64(8) // quarters: createStream ids 2, 3, ...
 	connected := false
 	for i := 0; i < n; i++ {
@@ -50,11 +54,15 @@ func gen(g *kernel.Rng, seed uint64, tier string) *kernel.Plan {
 		dup := int64(g.Pick(4, 1))
 		if !connected && g.Bool(0.5) {
 			connected = true
-			p.Ops = append(p.Ops, kernel.Op{K: "connect", T: 0, N: []int64{4, mode, dup, int64(g.Range(1, 20)), int64(g.U32()), int64(g.Pick(4, 1)), int64(g.Pick(4, 1))}})
+			p.Ops = append(p.Ops, kernel.Op{K: "connect", T: 0, N: []int64{4, mode, dup, int64(g.Range(1, 20)), int64(g.U32()), int64(g.Pick(4, 1)), int64(g.Pick(4, 1)), int64(g.Pick(5, 1))}})
 			continue
 		}
 		// the last argument: the peer sends a user-control ping request ahead of this response
-		p.Ops = append(p.Ops, kernel.Op{K: "createStream", T: 0, N: []int64{tid, mode, dup, int64(g.Pick(5, 1)), int64(g.Pick(4, 1))}})
+		p.Ops = append(p.Ops, kernel.Op{K: "createStream", T: 0, N: []int64{tid, mode, dup, int64(g.Pick(5, 1)), int64(g.Pick(4, 1)), int64(g.Pick(5, 1))}}) // ..., ping, response sent as an AMF3 command message
+		if long {
+			tid += 4
+			continue
+		}
 		tid += 4 * g.OneOf(1, 1, 2, 3, 15, 16, 31, 32, 63, 64, 255, 256, 1000)
 	}
 	if g.Bool(0.25) {
@@ -91,6 +99,7 @@ type pend struct {
 	dup  int64
 	scs  int64 // the peer announces a new chunk size right before this response
 	ping int64 // the peer sends a user-control ping request right before this response
+	amf3 int64 // the response goes out as an AMF3 command message (type 17: a zero byte, then the AMF0 body)
 }
 
 // porcupine model: the set of outstanding transaction ids.
@@ -166,7 +175,7 @@ func run(p *kernel.Plan) (res *kernel.Result) {
 	wfailed := false  // touched by task Aw only
 	var reqs []reqRec // written by task Aw only
 	var decs []decRec // written by task Ar only
-	var answered, dupSent, scsSent, pingSent int
+	var answered, dupSent, scsSent, pingSent, amf3Sent int
 	// packets are built here, outside the tasks (building uses fmt; see Task.Evf)
 	pkts := make([]rtmp.Packet, len(p.Ops))
 	for i, op := range p.Ops {
@@ -233,7 +242,11 @@ func run(p *kernel.Plan) (res *kernel.Result) {
 					e.Proto.DecodeMessage(m) // the peer's ping request: not a response
 					continue
 				}
-				if tid, ok := peekTid(m.Payload); ok {
+				body := m.Payload
+				if m.MessageType == rtmp.MessageTypeAMF3Command && len(body) > 0 {
+					body = body[1:]
+				}
+				if tid, ok := peekTid(body); ok {
 					d.tid, d.hasTid = tid, true
 				}
 				pkt, err := e.Proto.DecodeMessage(m)
@@ -275,7 +288,16 @@ func run(p *kernel.Plan) (res *kernel.Result) {
 			}
 			n := 1 + int(q.dup)
 			for k := 0; k < n; k++ {
-				if err := e.Proto.WritePacket(pkt, 0); err != nil {
+				if q.amf3 != 0 {
+					body, _ := pkt.MarshalBinary()
+					m := rtmp.NewStreamMessage(0)
+					m.MessageType = rtmp.MessageTypeAMF3Command
+					m.Payload = append([]byte{0}, body...)
+					if err := e.Proto.WriteMessage(m); err != nil {
+						return false
+					}
+					amf3Sent++
+				} else if err := e.Proto.WritePacket(pkt, 0); err != nil {
 					return false
 				}
 				if k > 0 {
@@ -333,6 +355,11 @@ func run(p *kernel.Plan) (res *kernel.Result) {
 					q.ping = how[k].N[6]
 				} else if how[k].K == "createStream" && len(how[k].N) > 4 {
 					q.ping = how[k].N[4]
+				}
+				if how[k].K == "connect" && len(how[k].N) > 7 {
+					q.amf3 = how[k].N[7]
+				} else if how[k].K == "createStream" && len(how[k].N) > 5 {
+					q.amf3 = how[k].N[5]
 				}
 			}
 			k++
@@ -499,6 +526,7 @@ func run(p *kernel.Plan) (res *kernel.Result) {
 	res.Stat("duplicate_responses", int64(dupSent))
 	res.Stat("peer_set_chunk_size_before_response", int64(scsSent))
 	res.Stat("peer_ping_request_before_response", int64(pingSent))
+	res.Stat("responses_sent_as_amf3_command", int64(amf3Sent))
 	res.Nontrivial = len(reqs) > 0
 	res.State = uint64(len(reqs))<<16 | uint64(inWrite)<<8 | uint64(dupSent)
 	return res
